@@ -71,7 +71,8 @@ Proof. exact fq_read_set_grows_only_when_needed. Qed.
 Print Assumptions C09_fq_read_set_grows_only_when_needed.
 
 (** the hypotheses are invariants: [BufFits r := length (buf r) <= cap r] always,
-    [FullInc] unless a call ended in an I/O error, fuel exhaustion or a panic *)
+    [FullInc] unless a call ended in fuel exhaustion or a panic
+    ([fa_regular_out o := match o with OFuel | OPanic _ => False | _ => True end]) *)
 Theorem C09_fa_invariants_preserved :
   (forall c s p, BufFits (fa_new c s p) /\ FullInc (fa_new c s p)) /\
   (forall fuel ffuel r r' o, fa_next fuel ffuel r = (r', o) -> BufFits r -> FullInc r ->
@@ -93,18 +94,27 @@ Theorem C09_fq_buffer_fits_preserved :
 Proof. exact fq_buffer_fits_preserved. Qed.
 Print Assumptions C09_fq_buffer_fits_preserved.
 
-(** FINDING (model and code): without [FullInc] the clause fails for FASTA.
-    An I/O error raised inside [resume_incomplete_search] leaves the reader in
-    state [Incomplete] with a buffer that is no longer full; the next call
-    re-enters the loop and asks the policy again although the buffer has room
-    (here: 3 of 6 bytes used), and [reserve] then does not adopt the answer. *)
-Theorem C09_fa_grow_after_io_error_refuted :
+(** [FullInc] is lost only by a call that runs out of fuel (or panics, which sane states
+    never do: C06s.v).  An I/O error while refilling is final in both readers, so the former
+    counter-example (the policy asked again, with room in the buffer, after an I/O error
+    inside [resume_incomplete_search]) no longer exists; [fa_regular_out o] is "o is neither
+    OFuel nor OPanic".  The fuel exception is real: with refill fuel 0 the loop stops right
+    after making room and leaves an [Incomplete] reader whose buffer has room. *)
+Theorem C09_fa_FullInc_lost_on_fuel_exhaustion :
   exists r, BufFits r /\ FullInc r /\
     let r1 := fst (fa_next 20 20 r) in
-    snd (fa_next 20 20 r) = OErr (FaIo 5) /\ st r1 = FIncomplete /\
-    map (fun s => (start s, length (buf s), cap s)) (fa_next_sites 20 20 r1) = [(0, 3, 6); (0, 6, 6)].
-Proof. exact fa_grow_after_io_error_refuted. Qed.
-Print Assumptions C09_fa_grow_after_io_error_refuted.
+    (exists rc, snd (fa_next 20 20 r) = ORec rc) /\ FullInc r1 /\
+    snd (fa_next 20 0 r1) = OFuel /\
+    let r2 := fst (fa_next 20 0 r1) in
+    st r2 = FIncomplete /\ length (buf r2) < cap r2.
+Proof. exact fa_FullInc_lost_on_fuel_exhaustion. Qed.
+Print Assumptions C09_fa_FullInc_lost_on_fuel_exhaustion.
+
+(** after an I/O error the invariant holds: the reader is finished *)
+Example C09_fa_io_error_keeps_FullInc :
+  let r1 := fst (fa_next 30 30 c14_fa_reader) in
+  snd (fa_next 30 30 c14_fa_reader) = OErr (FaIo 7) /\ st r1 = FFinished /\ FullInc r1 /\ fa_next_sites 30 30 r1 = [].
+Proof. vm_compute. repeat split; try reflexivity. intros H; discriminate H. Qed.
 
 (** non-vacuity *)
 Example C09_fa_grow_only_when_full_example :
